@@ -581,7 +581,7 @@ def apply_op(world, state, op):
             elif what == "iadd":
                 lst += vs
             elif what == "imul":
-                lst *= (abs(i) % 3)
+                lst *= (abs(i) % 3) if len(lst) <= 200 else 1  # (no exponential growth over a long history)
             elif what == "pop":
                 lst.pop()
             elif what == "reverse":
